@@ -622,7 +622,13 @@ impl<T: Transport, E: UtpEnvironment> Dispatcher<T, E> {
             remote,
             header: msg.header,
         };
-        while let Some(acceptor) = self.accept_queue.try_next_acceptor() {
+        // If older SYNs are already waiting, queue behind them: cleanup_accept_queue() hands them to
+        // acceptors oldest first. Matching this one directly would let it jump the queue.
+        while self.accept_queue.syns.is_empty() {
+            let acceptor = match self.accept_queue.try_next_acceptor() {
+                Some(acceptor) => acceptor,
+                None => break,
+            };
             match self.match_syn_with_accept(syn, acceptor) {
                 MatchSynWithAccept::Matched => return Ok(()),
                 MatchSynWithAccept::SynInvalid(sender) => {
